@@ -120,6 +120,20 @@ def callables():
             "partial(a.conv,y=2)": functools.partial(a.conv, y=2)}
 
 
+def write_source(path, src, keep_mtime):
+    """(re)write a module file.  keep_mtime: the modification time of the previous content is restored (an edit
+    inside the timestamp granularity / a restored checkout) and linecache has the file warm, as after a traceback or
+    inspect.getsource of the old version -- whoever trusts linecache.checkcache then sees the OLD text."""
+    import linecache
+    old = os.stat(path) if keep_mtime and os.path.exists(path) else None
+    with open(path, "w") as fh:
+        fh.write(src)
+    if old is not None:
+        os.utime(path, ns=(old.st_atime_ns, old.st_mtime_ns))
+    if keep_mtime:
+        linecache.getlines(path)
+
+
 def mutate_in_place(v):
     """modify every mutable container reachable from v (lists, dicts, sets)"""
     if isinstance(v, list):
@@ -530,7 +544,19 @@ def main():
     def mem_at(L):
         """the Memory of cache location L (several cache directories shared by the processes of a history)"""
         if L not in mems:
-            mems[L] = Memory(job["cache"] + "_loc%d" % L, verbose=sc.get("verbose", 0),
+            base_, spelling = (sc.get("loc_alias") or {}) and sc["loc_alias"][L] or (L, "abs")
+            path_ = job["cache"] if base_ == 0 else job["cache"] + "_loc%d" % base_
+            if spelling == "rel":
+                path_ = os.path.relpath(path_)
+            elif spelling == "dot":
+                path_ = os.path.join(path_, ".", "")
+            elif spelling == "link":
+                link_ = path_ + "_alias"
+                os.makedirs(path_, exist_ok=True)
+                if not os.path.islink(link_):
+                    os.symlink(path_, link_)
+                path_ = link_
+            mems[L] = Memory(path_, verbose=sc.get("verbose", 0),
                              mmap_mode=sc.get("mmap_mode"),
                              compress=tuple(sc["compress"]) if isinstance(sc["compress"], list) else sc["compress"])
         return mems[L]
@@ -572,8 +598,7 @@ def main():
                 elif ver.get("kind") == "sourceless":
                     path = "<string>"          # exec'd text: inspect.getsource fails, get_func_code falls back
                 else:
-                    with open(path, "w") as fh:
-                        fh.write(src)
+                    write_source(path, src, sc.get("keep_mtime"))
                 modname = "__main__" if ver.get("kind") in ("main", "ipycell") else "verifmod"
 
                 defaults_ns = {n: dec(d) for n, _, d in vparams(sc, k) if d is not None and not is_literal(d)}
@@ -698,8 +723,7 @@ def main():
                 ver = sc["versions"][str(k2)]
                 src = source_for(sc, k2)
                 path = os.path.join(moddir, ver["path"])
-                with open(path, "w") as fh:
-                    fh.write(src)
+                write_source(path, src, sc.get("keep_mtime"))
                 scratch = {"__name__": objs[k].__module__}
                 exec(compile(src, path, "exec"), scratch)
                 objs[k].__code__ = scratch["g"].__code__
